@@ -242,6 +242,14 @@ theorem C04_gen_all_exceptions : ∀ p ∈ allExceptions, p.2 ∈ closedExcQuals
 /-- **Obligation** (`C04_gen_struct`): struct.error is an exception class, under that name. -/
 theorem C04_gen_struct : structErrorIsException = true ∧ structErrorQual = cs "struct.error" := by decide
 
+/-- **C04_ext_converted.**  On a path that runs msgpack's `ext_hook` (`loads`; `loadsCall` when the probed flag says so), once
+    the hook pass over a literal tree succeeds no extension value is left in it: every one was converted to data, and an
+    unknown code makes decoding fail (`C04_gen_ext_codes` ties the accepted codes to the real `ext_hook`).  Hence an
+    undecoded `msgpack.ExtType` in a decoded value is not an outcome of the model (the oracle reports it as a foreign type). -/
+theorem C04_ext_converted (E : Env) (lit w : Val) (hp : plainB lit = true) (h : (applyExt E lit).1 = .ok w) :
+    noExtB w = true :=
+  (applyExt_noExt E lit hp).1 w h
+
 /-- **Obligation on the extracted probe table** (`C04_gen_probes`): on every one of the fixed probe inputs — one
     well-formed class dict per recognised tag, the refusing branches, every member missing or ill-typed, registry,
     wrappers, all container kinds, lists beyond 1024 items, the call shapes of the four serializers, msgpack extension
